@@ -16,13 +16,24 @@ Mirrors `geonet/router.py` (and the LocT get-or-create of `geonet/location_table
   lsReplyPop       gn_data_indicate_ls_reply      under _ls_lock, nested loc_t_lock
   lsFlushPick      … `for req in buffered: gn_data_request_guc(req)`: each iteration runs the whole GeoUnicast
                    request body again (lookup; send | register/queue again + LS request), under its own operation id
-  loctPurge        LocationTable.refresh_table    under loc_t_lock (drops an entry; only used by the `_witness`)
+  loctPurge        LocationTable.refresh_table    under loc_t_lock (drops an entry unconditionally; only used by the KF1 `_witness`)
+  locTRefresh      LocationTable.refresh_table    under loc_t_lock: drops every entry that is expired (`exp`, an input: time is
+                   not modelled) or has no position vector yet and no pending location service
+  rxRecv           LocationTable.new_*_packet     get-or-create AND entry update (duplicate packet list, first PV) in ONE
+                   loc_t_lock section (repair C15-locte-update-under-lock)
+  rxGetOrCreate / rxDpl / rxPV                    the same code before the repair: create under loc_t_lock, then
+                   check_duplicate_sn under the entry's dpl_lock, then update_position_vector under its
+                   position_vector_lock – three blocks (dual variant; the old race is `dpl_at_most_once_witness`)
+LocTEs are OBJECTS: `eid a` is the identity of the object stored for address `a`; a thread of the old variant keeps
+the identity in a register and may update an object that a concurrent refresh_table already dropped from the table.
 Branches are encoded with per-operation registers (`reg o slot`), i.e. thread-local variables.
 The decomposition is tied to the source by `blocks_*` theorems below (`decide` against `Generated.Locks`).
 Values are abstract: PVs, keys, destinations, request ids are `Nat`s.
 -/
 import FlexModel.Conc.Sched
+import FlexModel.Geo.LocT
 import Generated.Locks
+import Generated.OpenFindings
 import Generated.Mib
 
 namespace FlexModel.Conc.Router
@@ -80,10 +91,13 @@ structure St where
   cbfCom : Nat → Nat := fun _ => 0     -- expire blocks that found the key (committed to send)
   cbfSent : Nat → Nat := fun _ => 0    -- sends of the key's packet
   cbfPend : Nat → Nat := fun _ => 0    -- expire blocks that committed and have not sent yet
-  dpl : Nat → Bool := fun _ => false   -- SN already in the source's duplicate packet list
   tStarted : Nat → Bool := fun _ => false    -- Timer.start() was called (timer id = creating operation)
   tCancelled : Nat → Bool := fun _ => false  -- Timer.cancel() was called
   loct : Nat → Bool := fun _ => false      -- LocT has an entry for the address
+  eid : Nat → Nat := fun _ => 0            -- identity of the LocTE object stored for the address (meaningful iff `loct`)
+  eNext : Nat := 0                         -- LocTE objects constructed so far (identities 1 … eNext)
+  ePV : Nat → Bool := fun _ => false       -- per object: `position_vector is not _NO_POSITION_VECTOR`
+  eDpl : Nat → List Nat := fun _ => []     -- per object: dpl_deque (oldest first)
   pending : Nat → Bool := fun _ => false   -- entry.ls_pending
   lsBuf : Nat → List Nat := fun _ => []    -- _ls_packet_buffers
   lsCnt : Nat → Option Nat := fun _ => none  -- _ls_retransmit_counters
@@ -94,6 +108,11 @@ structure St where
   lsSent : Nat → List Nat := fun _ => []     -- buffered requests sent after a reply
   lsDropped : Nat → List Nat := fun _ => []  -- buffered requests dropped by the give-up block
   lsLost : Nat → List Nat := fun _ => []     -- buffered requests overwritten by a new registration
+  lsPops : Nat → Nat := fun _ => 0           -- reply blocks executed for the destination
+  -- ghost bookkeeping of duplicate detection (not in the code; what the property talks about)
+  ePass : Nat → List Nat := fun _ => []      -- per object: SNs that passed check_duplicate_sn on it, oldest first
+  srcPass : Nat → List Nat := fun _ => []    -- per source: SNs that passed since the source's entry was last purged
+  srcLives : Nat → List (List Nat) := fun _ => []  -- per source: the `srcPass` lists closed by a purge of its entry
   reg : Nat → Nat → Nat := fun _ _ => 0        -- thread-local scalars of operation o
   regL : Nat → List Nat := fun _ => []         -- thread-local list of operation o (`buffered`)
   err : Nat := 0                    -- exceptions raised by blocks (KeyError of `del`)
@@ -106,7 +125,8 @@ def upd2 (f : Nat → Nat → Nat) (o k v : Nat) : Nat → Nat → Nat := fun i 
 
 /-! ## blocks
 registers of operation `o`: 0 SN, 1 PV, 2 CBF outcome (1 = expire block found the key / arrive block inserted),
-3 destination known, 4 "an LS request has to go out", 5/6 flush loop, 7 timer check, 8 popped timer, 9 DPL, 10 a timer was popped -/
+3 destination known, 4 "an LS request has to go out", 5/6 flush loop, 7 timer check, 8 popped timer, 9 DPL (1 = not a duplicate),
+10 a timer was popped, 12 the LocTE object held by a reception (`entry`), 13 `is_new_entry` -/
 
 /-- `with sequence_number_lock: self.sequence_number = (self.sequence_number + 1) % (2**16 - 1); return it` -/
 def getSN (o : Nat) (s : St) : St :=
@@ -126,10 +146,15 @@ def sendPkt (o kind ref : Nat) (useSN : Bool) (s : St) : St :=
 /-- run `f` only in the branch where register `slot` of `o` has value `v` -/
 def whenReg (o slot v : Nat) (f : St → St) (s : St) : St := if s.reg o slot = v then f s else s
 
-/-- gn_area_cbf_forwarding under `_cbf_lock`: duplicate → pop + cancel; new → insert (timer id = `o`) -/
+/-- `del self._cbf_buffer[k]` / `self._cbf_buffer.pop(k)` (no default): removes the key – and raises KeyError, i.e. the
+thread FAILS, when the key is absent.  The two call sites below run it in the section that has just seen the key. -/
+def cbfDel (k : Nat) (s : St) : St :=
+  if s.cbf k then { s with cbf := upd s.cbf k false } else { s with err := s.err + 1 }
+
+/-- gn_area_cbf_forwarding under `_cbf_lock`: duplicate (`if key in buf`) → `pop(key)` + cancel; new → insert (timer id = `o`) -/
 def cbfArrive (o k : Nat) (s : St) : St :=
   if s.cbf k then
-    { s with cbf := upd s.cbf k false, cbfCan := upd s.cbfCan k (s.cbfCan k + 1),
+    { s with cbf := (cbfDel k s).cbf, err := (cbfDel k s).err, cbfCan := upd s.cbfCan k (s.cbfCan k + 1),
              tCancelled := upd s.tCancelled (s.cbfTok k) true, reg := upd2 s.reg o 2 0 }
   else
     { s with cbf := upd s.cbf k true, cbfIns := upd s.cbfIns k (s.cbfIns k + 1), cbfTok := upd s.cbfTok k o,
@@ -145,10 +170,23 @@ def timerCheck (o src : Nat) (s : St) : St :=
 /-- `_cbf_timeout` under `_cbf_lock`: `if key not in buf: return` else `del buf[key]` (KeyError if absent) -/
 def cbfExpire (o k : Nat) (s : St) : St :=
   if s.cbf k then
-    { s with cbf := upd s.cbf k false, cbfCom := upd s.cbfCom k (s.cbfCom k + 1),
-             cbfPend := upd s.cbfPend k (s.cbfPend k + 1), reg := upd2 s.reg o 2 1,
-             err := if s.cbf k then s.err else s.err + 1 }
+    { s with cbf := (cbfDel k s).cbf, err := (cbfDel k s).err, cbfCom := upd s.cbfCom k (s.cbfCom k + 1),
+             cbfPend := upd s.cbfPend k (s.cbfPend k + 1), reg := upd2 s.reg o 2 1 }
   else { s with reg := upd2 s.reg o 2 0 }
+
+/-- the two halves of `cbfExpire` as separate steps (what `_cbf_timeout` would be if the membership test and the `del`
+were NOT in one `_cbf_lock` section; used by `no_thread_fails_witness` only): the test … -/
+def cbfCheck (o k : Nat) (s : St) : St := { s with reg := upd2 s.reg o 2 (if s.cbf k then 1 else 0) }
+
+/-- … and the `del` with the commit bookkeeping -/
+def cbfDelCommit (k : Nat) (s : St) : St :=
+  { s with cbf := (cbfDel k s).cbf, err := (cbfDel k s).err, cbfCom := upd s.cbfCom k (s.cbfCom k + 1),
+           cbfPend := upd s.cbfPend k (s.cbfPend k + 1) }
+
+/-- executed without interruption the two halves are the one-section block -/
+theorem cbfExpire_eq_split (o k : Nat) (s : St) : cbfExpire o k s = whenReg o 2 1 (cbfDelCommit k) (cbfCheck o k s) := by
+  unfold cbfExpire whenReg cbfCheck cbfDelCommit cbfDel
+  by_cases h : s.cbf k = true <;> simp [h, upd2]
 
 /-- `_cbf_timeout` after the lock: send iff the expire block found the key -/
 def cbfSend (o k : Nat) (s : St) : St :=
@@ -164,10 +202,6 @@ def cbfDiscard (o k : Nat) (s : St) : St :=
     { s with cbf := upd s.cbf k false, cbfCan := upd s.cbfCan k (s.cbfCan k + 1),
              reg := upd2 (upd2 s.reg o 8 (s.cbfTok k)) o 10 1 }
   else { s with reg := upd2 s.reg o 10 0 }
-
-/-- LocationTableEntry.check_duplicate_sn under `dpl_lock` (a duplicate raises DuplicatedPacketException) -/
-def dplCheck (o k : Nat) (s : St) : St :=
-  if s.dpl k then { s with reg := upd2 s.reg o 9 0 } else { s with dpl := upd s.dpl k true, reg := upd2 s.reg o 9 1 }
 
 /-- `de_entry = self.location_table.get_entry(dest)`; usable (register 3 := 1) iff it exists and (`fx`, commit
 "GeoUnicast requests issued during a pending location-service lookup keep their order") is not a pending placeholder;
@@ -192,9 +226,18 @@ def gucSend (o d : Nat) (s : St) : St :=
     else s
   else { s with sent := ⟨2, r, s.reg o 0, s.reg o 1⟩ :: s.sent }
 
+/-- `itsGnDPLLength`: length of the duplicate packet list (ring) of a LocTE -/
+def dplLen : Nat := Generated.Mib.itsGnDPLLength
+
+/-- `entry = LocationTableEntry(self.mib); self.loc_t[a] = entry` (inside a `loc_t_lock` section): a NEW object –
+no position vector, empty duplicate packet list, `ls_pending = False` -/
+def newEntry (a : Nat) (s : St) : St :=
+  { s with loct := upd s.loct a true, pending := upd s.pending a false, eid := upd s.eid a (s.eNext + 1), eNext := s.eNext + 1,
+           ePV := upd s.ePV (s.eNext + 1) false, eDpl := upd s.eDpl (s.eNext + 1) [], ePass := upd s.ePass (s.eNext + 1) [] }
+
 /-- `location_table.ensure_entry(dest)` inside the `_ls_lock` section (both branches of the code with the LS-order
 commit call it): the placeholder LocTE becomes visible to `get_entry` BEFORE `ls_pending` is set -/
-def lsEnsure (d : Nat) (s : St) : St := { s with loct := upd s.loct d true }
+def lsEnsure (d : Nat) (s : St) : St := if s.loct d then s else newEntry d s
 
 /-- the rest of the first `_ls_lock` section of gn_ls_request, without the ghost bookkeeping.
 `fx = true` (code with the LS-order commit): a lookup in progress is also recognised by its retransmit counter;
@@ -245,14 +288,18 @@ def lsRetransmitCheck (mr o d : Nat) (s : St) : St :=
              reg := upd2 s.reg o 4 0 }
   else { s with lsCnt := upd s.lsCnt d (some (c + 1)), reg := upd2 s.reg o 4 1 }
 
-/-- LocationTable.new_ls_reply_packet: entry created/updated under loc_t_lock -/
-def loctLearn (d : Nat) (s : St) : St := { s with loct := upd s.loct d true }
+/-- LocationTable.new_ls_reply_packet: entry created/updated (position vector) under loc_t_lock; the reply's own sequence
+number is not tracked -/
+def loctLearn (d : Nat) (s : St) : St :=
+  let t := if s.loct d then s else newEntry d s
+  { t with ePV := upd t.ePV (t.eid d) true }
 
 /-- `_ls_lock` section of gn_data_indicate_ls_reply -/
 def lsReplyPop (o d : Nat) (s : St) : St :=
   { s with lsTimer := upd s.lsTimer d none, lsCnt := upd s.lsCnt d none,
            reg := upd2 (upd2 s.reg o 8 ((s.lsTimer d).getD 0)) o 10 (if (s.lsTimer d).isSome then 1 else 0),
            regL := upd s.regL o (s.lsBuf d), lsFlight := upd s.lsFlight d (s.lsBuf d ++ s.lsFlight d), lsBuf := upd s.lsBuf d [],
+           lsPops := upd s.lsPops d (s.lsPops d + 1),
            pending := if s.loct d then upd s.pending d false else s.pending }
 
 /-- `if timer is not None: timer.cancel()` after the section -/
@@ -266,7 +313,53 @@ def lsFlushPick (o ok : Nat) (s : St) : St :=
   | r :: rest => { s with regL := upd s.regL o rest, reg := upd2 (upd2 (upd2 s.reg ok 5 1) ok 6 r) ok 11 1 }
 
 /-- LocationTable.refresh_table dropping the entry of `d` (a placeholder has TST 0 and is always "expired") -/
-def loctPurge (d : Nat) (s : St) : St := { s with loct := upd s.loct d false, pending := upd s.pending d false }
+def loctPurge (d : Nat) (s : St) : St :=
+  { s with loct := upd s.loct d false, pending := upd s.pending d false,
+           srcLives := if s.loct d then upd s.srcLives d (s.srcPass d :: s.srcLives d) else s.srcLives,
+           srcPass := upd s.srcPass d [] }
+
+/-! ### LocTE life cycle (LocationTable.refresh_table / new_*_packet) -/
+
+/-- keep-condition of refresh_table for the entry of `a`: an entry without position vector (Location Service
+placeholder, or – before repair C15-locte-update-under-lock – an entry whose creator has not updated it yet) is kept
+exactly while its LS is pending; otherwise it is kept unless its PV aged out (`a ∈ exp`; which PVs are older than
+itsGnLifetimeLocTE at this instant is an input of the block: time is not modelled) -/
+def keepE (exp : List Nat) (s : St) (a : Nat) : Bool :=
+  if s.ePV (s.eid a) then !exp.contains a else s.pending a
+
+/-- `with loc_t_lock: self.loc_t = {gn: e for gn, e in self.loc_t.items() if keep(e)}`; dropping an entry ends the
+current life of its source (ghost: `srcPass` is closed into `srcLives`) -/
+def locTRefresh (exp : List Nat) (s : St) : St :=
+  { s with loct := fun a => s.loct a && keepE exp s a,
+           pending := fun a => if s.loct a && !keepE exp s a then false else s.pending a,
+           srcLives := fun a => if s.loct a && !keepE exp s a then s.srcPass a :: s.srcLives a else s.srcLives a,
+           srcPass := fun a => if s.loct a && !keepE exp s a then [] else s.srcPass a }
+
+/-- `entry = self.loc_t.get(a); is_new_entry = entry is None; if is_new_entry: entry = LocationTableEntry(); loc_t[a] = entry`
+(register 12 := the object, register 13 := is_new_entry) -/
+def rxGetOrCreate (o a : Nat) (s : St) : St :=
+  if s.loct a then { s with reg := upd2 (upd2 s.reg o 12 (s.eid a)) o 13 0 }
+  else { newEntry a s with reg := upd2 (upd2 s.reg o 12 (s.eNext + 1)) o 13 1 }
+
+/-- LocationTableEntry.check_duplicate_sn of object `e` under its `dpl_lock` (`mh = false`: SHB / beacon, no sequence
+number, no duplicate detection): a duplicate raises DuplicatedPacketException (register 9 := 0), otherwise the SN is
+pushed into the ring (`FlexModel.Geo.dplPush`, the definition of C06/C08) and the reception counts as passed -/
+def dplOn (mh : Bool) (o a k e : Nat) (s : St) : St :=
+  if mh then
+    if (s.eDpl e).contains k then { s with reg := upd2 s.reg o 9 0 }
+    else { s with eDpl := upd s.eDpl e (FlexModel.Geo.dplPush dplLen (s.eDpl e) k), ePass := upd s.ePass e (s.ePass e ++ [k]),
+                  srcPass := upd s.srcPass a (s.srcPass a ++ [k]), reg := upd2 s.reg o 9 1 }
+  else { s with reg := upd2 s.reg o 9 1 }
+
+/-- … on the object the thread holds in its local variable `entry` -/
+def rxDpl (mh : Bool) (o a k : Nat) (s : St) : St := dplOn mh o a k (s.reg o 12) s
+
+/-- LocationTableEntry.update_position_vector of the held object under its `position_vector_lock` (not reached after
+DuplicatedPacketException): the object has a position vector from now on -/
+def rxPV (o : Nat) (s : St) : St := if s.reg o 9 = 1 then { s with ePV := upd s.ePV (s.reg o 12) true } else s
+
+/-- the repaired new_*_packet: get-or-create, duplicate detection and PV update in ONE `loc_t_lock` section -/
+def rxRecv (mh : Bool) (o a k : Nat) (s : St) : St := rxPV o (rxDpl mh o a k (rxGetOrCreate o a s))
 
 /-! ## operations and their programs -/
 
@@ -276,7 +369,12 @@ inductive Op where
   | gbc (o : Nat)                   -- gn_data_request_gbc
   | ego (v : Nat)                   -- refresh_ego_position_vector
   | cbfArrive (o k : Nat)           -- gn_area_cbf_forwarding (forwarder operation for key k)
-  | gbcRx (o k : Nat) (disc : Bool) -- gn_data_indicate of a GBC frame with key k (DPL, then CBF; `disc`: duplicates discard the buffered copy)
+  | gbcRx (o a k : Nat) (lk disc : Bool) (exp : List Nat)
+      -- gn_data_indicate of a GBC frame of source a with sequence number k (LocT update incl. DPL, then CBF with key k;
+      -- `lk`: LocTE updated inside the loc_t_lock section (repaired code); `disc`: duplicates discard the buffered copy;
+      -- `exp`: addresses whose PV is older than the LocTE lifetime when the frame arrives)
+  | shbRx (o a : Nat) (lk : Bool) (exp : List Nat)   -- gn_data_indicate of a SHB / beacon frame of station a (no DPL)
+  | refresh (exp : List Nat)        -- LocationTable.refresh_table alone
   | cbfFire (o k src : Nat)         -- timer thread of the timer created by `src`: _cbf_timeout
   | guc (o r d : Nat) (fx : Bool)   -- gn_data_request_guc of request r to destination d (`fx`: code with the LS-order commit)
   | lsReply (o d n : Nat) (fx : Bool)  -- gn_data_indicate_ls_reply from d (flush loop unrolled n times; iteration k has id 1000(k+1)+o)
@@ -285,6 +383,7 @@ inductive Op where
   deriving DecidableEq, Repr
 
 def lkDpl : Lock := 5
+def lkPv : Lock := 6
 
 /-- tagged instructions: the tags only tell the correspondence driver which steps are invisible to other threads
 (`gblk` with a false guard, `loc`, `nop`); the semantics and all theorems use the erased program -/
@@ -325,14 +424,23 @@ def gucBody (o d : Nat) (fx : Bool) : List TI :=
 def flushIter (o d : Nat) (fx : Bool) (k : Nat) : List TI :=
   [.loc (lsFlushPick o (1000 * (k + 1) + o))] ++ gucBody (1000 * (k + 1) + o) d fx
 
+/-- LocationTable.new_*_packet for a frame of source `a` with sequence number `k`: refresh_table; get-or-create and
+entry update – ONE `loc_t_lock` section taking the entry locks inside (`lk`, repaired code) or a `loc_t_lock` section
+followed by the unprotected update (old code); refresh_table again unless DuplicatedPacketException was raised -/
+def rxProg (o a k : Nat) (mh lk : Bool) (exp : List Nat) : List TI :=
+  tsect lkLocT (.blk (locTRefresh exp)) ++
+  (if lk then [.acq lkLocT, .blk (rxRecv mh o a k), .acq lkDpl, .nop, .rel lkDpl, .rel lkLocT]
+   else tsect lkLocT (.blk (rxGetOrCreate o a)) ++ tsect lkDpl (.blk (rxDpl mh o a k)) ++ tsect lkPv (.blk (rxPV o))) ++
+  tsect lkLocT (.gblk o 9 1 (locTRefresh exp))
+
 def compileT : Op → List TI
   | .sn o => tsect lkSN (.blk (getSN o))
   | .shb o => [.blk (readEgo o), .blk (sendPkt o 0 o false)]
   | .gbc o => tsect lkSN (.blk (getSN o)) ++ [.blk (readEgo o), .blk (sendPkt o 1 o true)]
   | .ego v => tsect lkEgo (.blk (egoSwap v))
   | .cbfArrive o k => tsect2 lkCbf lkLocT (.blk (cbfArrive o k)) ++ [.gblk o 2 1 (timerStart o)]
-  | .gbcRx o k disc =>
-      tsect lkLocT .nop ++ tsect lkDpl (.blk (dplCheck o k)) ++
+  | .gbcRx o a k lk disc exp =>
+      rxProg o a k true lk exp ++
       tsect2 lkCbf lkLocT (.gblk o 9 1 (cbfArrive o k)) ++ [.gblk o 9 1 (whenReg o 2 1 (timerStart o))] ++
       (if disc then tsect lkCbf (.gblk o 9 0 (cbfDiscard o k)) ++ [.gblk o 10 1 (lsReplyCancel o)] else [])
   | .cbfFire o k src =>
@@ -345,6 +453,8 @@ def compileT : Op → List TI
       [.blk (timerCheck o src)] ++ tsect2 lkLs lkLocT (.gblk o 7 1 (lsRetransmitCheck mr o d)) ++
       sendLsReq o d (lsStoreTimer' o d)
   | .purge d => tsect lkLocT (.blk (loctPurge d))
+  | .shbRx o a lk exp => rxProg o a 0 false lk exp
+  | .refresh exp => tsect lkLocT (.blk (locTRefresh exp))
 
 def compile (op : Op) : List (Instr St) := (compileT op).map TI.erase
 
@@ -395,6 +505,61 @@ theorem blocks_ensure_entry :
 
 theorem blocks_get_entry :
     shape .LocationTable_get_entry = [([.LocationTable_loc_t_lock], [.LocationTable_loc_t])] := by decide
+
+/-! ### LocTE life cycle: refresh_table, get_neighbours and the seven `new_*_packet` functions -/
+
+theorem blocks_refresh_table :
+    shape .LocationTable_refresh_table = [([.LocationTable_loc_t_lock], [.LocationTable_loc_t])] := by decide
+
+theorem blocks_get_neighbours :
+    shape .LocationTable_get_neighbours = [([.LocationTable_loc_t_lock], [.LocationTable_loc_t])] := by decide
+
+def rxFns : List Fn :=
+  [.LocationTable_new_shb_packet, .LocationTable_new_guc_packet, .LocationTable_new_tsb_packet, .LocationTable_new_gac_packet,
+   .LocationTable_new_ls_request_packet, .LocationTable_new_ls_reply_packet, .LocationTable_new_gbc_packet]
+
+/-- the methods of LocationTableEntry that write the entry (DPL, position vector, PDR, IS_NEIGHBOUR) -/
+def entryUpdaters : List Fn :=
+  [.LocationTableEntry_check_duplicate_sn, .LocationTableEntry_update_position_vector, .LocationTableEntry_update_pdr,
+   .LocationTableEntry_update_with_gbc_packet, .LocationTableEntry_update_with_shb_packet,
+   .LocationTableEntry_update_with_tsb_packet]
+
+/-- first and last call of `f`: refresh_table, with no lock held -/
+def framedByRefresh (f : Fn) : Bool :=
+  (calls f).head? == some ([], .LocationTable_refresh_table) &&
+  (calls f).getLast? == some ([], .LocationTable_refresh_table)
+
+/-- the shape `rxProg … (lk := true)` assumes (repair C15-locte-update-under-lock): refresh_table; ONE `loc_t_lock`
+section that touches `loc_t` and in which every other call – the entry update among them – is made; refresh_table -/
+def rxLocked (f : Fn) : Bool :=
+  framedByRefresh f && (shape f).map (·.1) == [[.LocationTable_loc_t_lock]] &&
+  ((shape f).all fun b => b.2.contains .LocationTable_loc_t) &&
+  ((calls f).all fun c => c == ([], .LocationTable_refresh_table) || c.1 == [.LocationTable_loc_t_lock]) &&
+  ((calls f).any fun c => entryUpdaters.contains c.2)
+
+/-- the shape `rxProg … (lk := false)` assumes (code before the repair): the get-or-create section under
+`loc_t_lock`, then the entry update with NO lock held -/
+def rxUnlocked (f : Fn) : Bool :=
+  framedByRefresh f && ((shape f).head?.map (·.1)) == some [.LocationTable_loc_t_lock] &&
+  ((shape f).head?.map fun b => b.2.contains .LocationTable_loc_t) == some true &&
+  ((calls f).all fun c => !entryUpdaters.contains c.2 || c.1 == []) &&
+  ((calls f).any fun c => entryUpdaters.contains c.2)
+
+/-- no function outside LocationTableEntry calls an entry updater without holding `loc_t_lock` -/
+def updatersUnderLocT : Bool :=
+  allFns.all fun f => entryUpdaters.contains f ||
+    ((calls f).all fun c => !entryUpdaters.contains c.2 || c.1.contains .LocationTable_loc_t_lock)
+
+/-- **the seven `new_*_packet` functions have the shape of the repaired variant**; the shape of the unrepaired
+code is accepted only while known finding C15-KF2 is open (`Generated.OpenFindings`, from known_findings.d/C15.json):
+once the finding is marked fixed this theorem is strict and moving an entry update out of the `loc_t_lock` section
+again re-opens it.  (A mixture of the two shapes is never accepted.) -/
+theorem blocks_new_packet :
+    ((rxFns.all rxLocked && updatersUnderLocT) ||
+      (Generated.OpenFindings.C15_KF2 && rxFns.all rxUnlocked)) = true := by decide +kernel
+
+/-- which variant the source is (used by the non-vacuity examples only; the harness probes the variant at run time) -/
+def sourceLocked : Bool := rxFns.all rxLocked && updatersUnderLocT
 
 /-- no shared attribute of the router / location table is read-modified-written outside a lock (`setup_gn_address`
 runs inside `__init__`) -/
